@@ -152,7 +152,13 @@ class FaultLog:  # 0418  # TODO: use a NamedTuple
         self._is_getting: bool = False
 
     def _insert_into_map(self, idx: FaultIdxT, dtm: FaultDtmT | None) -> FaultMapT:
-        """Rebuild the map (as best as possible), given the a log entry."""
+        """Rebuild the map (as best as possible), given the a log entry.
+
+        The log is ordered newest-first, and entries only ever move down it. So, given
+        that the entry with timestamp dtm is now at idx: newer entries must be above it
+        (any that were believed to be at/below idx are stale), and older entries must be
+        below it (if need be, they are all pushed down, by just enough).
+        """
 
         new_map: FaultMapT = OrderedDict()
 
@@ -166,20 +172,16 @@ class FaultLog:  # 0418  # TODO: use a NamedTuple
 
         new_map |= {idx: dtm}
 
-        if not (idxs := [k for k, v in self._map.items() if v < dtm]):
+        older = {k: v for k, v in self._map.items() if v < dtm}
+        if not older:
             return new_map
 
-        if (next_idx := min(idxs)) > idx:
-            diff = 0
-        elif next_idx == idx:
-            diff = 1  # next - idx + 1
-        else:
-            diff = idx + 1  # 1 if self._map.get(idx) else 0
+        diff = max(0, idx + 1 - min(older))  # 0 if they are already all below idx
 
         new_map |= {
             k + diff: v  # type: ignore[misc]
-            for k, v in self._map.items()
-            if (k >= idx or v < dtm) and k + diff <= self._MAX_LOG_IDX
+            for k, v in sorted(older.items())
+            if k + diff <= self._MAX_LOG_IDX
         }
 
         return new_map
